@@ -63,15 +63,33 @@ def _writes(prog, b):
     return out, other
 
 
-def _flush_last(prog, b):
-    """every non-error return value derives from the result of Write::flush"""
+ANSWER_REF = {
+    # (method, label kind) -> (MIN, MAX, LOOSE): every string of MIN must be writable, nothing outside MAX may be written.
+    # \x01 stands for one displayed label.  Constants of the checker (from the property statement), never derived from the code.
+    # LOOSE is the upper bound used when the extraction met a branch it could not evaluate (the extracted language then
+    # over-approximates the outputs): a violation of MAX that stays inside LOOSE is reported as "not decided".
+    ("write_no_extension", "*"): (r"NO\n", r"NO\n", r"NO\n"),
+    ("write_acceptance_status", "*"): (r"(?:YES|NO)\n", r"(?:YES|NO)\n", r"(?:YES|NO)\n"),
+    ("write_single_extension", "usize"): (r"w(?: \x01)*\n", r"w(?: \x01)*\n", r"w(?: \x01)*\n"),
+    ("write_single_extension", "other"): (r"\[(?:\x01(?:,\x01)*)?\]\n", r"\[(?:\x01(?:,\x01)*)?\]\n", r"\[(?:,?\x01)*\]\n"),
+}
+
+
+def _flush_last(prog, b, depth=0):
+    """every non-error return value derives from the result of Write::flush (possibly in a local
+    helper the writer is delegated to)"""
     srcs = origins(b, {"l": 0, "p": []}, transparent=())
     ok = False
     for o in srcs:
         if o.kind == "call":
-            nm = strip_generics(callee_name(o.data) or "")
             if is_try_residual(o.data):
                 continue
+            tgt = prog.body_for_callee(o.data, b) if o.data.get("decl") != "<indirect>" else None
+            if tgt is not None and tgt.kind != "closure" and tgt.path.startswith("io::") and depth < 3 and any("dyn std::io::Write" in tgt.local_ty(i) for i in range(1, tgt.n_args + 1)):
+                if _flush_last(prog, tgt, depth + 1):
+                    ok = True
+                    continue
+                return False
             _, calls, _ = data_deps(b, {"l": 0, "p": []})
             if any(callee_matches(callee_of(c), r"^std::io::Write::flush$") for c in calls if c.bb == o.site.bb or b.dominates(c, o.site)):
                 ok = True
@@ -92,48 +110,70 @@ def _flush_last(prog, b):
 
 
 def rule_answer_grammar(ctx):
+    from .. import outlang
+
     prog = ctx.prog
     r = ctx.rule(
         "answer-grammar",
-        "response writers emit exactly: `w` + ` {}` per member + newline (ICCMA'23), `[` + `{}` / `,{}` + `]` newline (Aspartix), `NO` newline, "
-        "`YES`|`NO` newline for statuses; each function writes one line, flushes last, and performs no other write on its writer",
+        "the regular language a response writer can emit on its writer (extracted from its control-flow graph: format templates, write_all / "
+        "String-building contents, helpers and per-element closures inlined, a displayed label = one symbol) lies between the reference "
+        "languages of the answer grammar: `w` + ` label`* + newline (ICCMA'23), `[` + labels separated by `,` + `]` newline (Aspartix), "
+        "`NO` newline, `YES`|`NO` newline chosen by the status; the first member has no separator; each function flushes before returning Ok",
     )
     impls = prog.impls_of_trait(RW)
     if not r.require_anchor(impls, "impls of " + RW):
         return
     r.floor(len(impls), 2, "ResponseWriter impls")
-
-    def templates_of(b):
-        fss, other = _writes(prog, b)
-        return [fs.template for fs in fss], fss, other
-
-    def resolve(b, depth=0):
-        """follow a pure delegation to a local helper"""
-        ts, fss, other = templates_of(b)
-        if not ts and depth < 2:
-            cs = [t for s, t in prog.callees(b, include_closures=False, virtual_dispatch=False) if t.path.startswith("io::")]
-            if len(cs) == 1:
-                return resolve(cs[0], depth + 1)
-        return b, ts, fss, other
-
+    outlang.clear_cache()
+    n_dec = 0
     for imp in impls:
         mt = re.search(r"ResponseWriter<(.+)>>$", imp.get("trait_ref") or "")
-        label_ty = mt.group(1) if mt else "?"
+        label_ty = mt.group(1).strip() if mt else "?"
         for m in imp["methods"]:
-            b0 = prog.lib(m["path"])
-            if b0 is None:
+            b = prog.lib(m["path"])
+            if b is None or m["name"] not in ("write_no_extension", "write_acceptance_status", "write_single_extension"):
                 continue
-            b, ts, fss, other = resolve(b0)
             anchor = "%s|%s" % (imp["self_ty"], m["name"])
-            if m["name"] == "write_no_extension":
-                r.check(ts == ["NO\n"], anchor, "templates=%s" % ts, "writes `NO` and a newline", "write_no_extension writes %s" % ts, b.loc())
-            elif m["name"] == "write_acceptance_status":
-                ok = ts == ["{}\n"]
+            ref = ANSWER_REF.get((m["name"], "*")) or ANSWER_REF.get((m["name"], "usize" if label_ty == "usize" else "other"))
+            wparams = [i for i in range(1, b.n_args + 1) if "dyn std::io::Write" in b.local_ty(i)]
+            if not r.require_anchor(len(wparams) == 1, "the `&mut dyn Write` parameter of %s" % b.path):
+                continue
+            outlang.clear_cache()
+            try:
+                lang = outlang.sink_language(prog, b, ("param", wparams[0]))
+            except outlang.Undecided as e:
+                r.ok(anchor, "output language not extracted (%s): NOT decided for this method" % e, b.loc())
+                continue
+            imprecise = outlang.imprecise()
+            n_dec += 1
+            L = "^(?:%s)$" % lang
+            lo, hi, loose = ("^(?:%s)$" % x for x in ref)
+            w = _wit([lo], [L])
+            r.check(w.get("witness") is None and "error" not in w, anchor, "cannot-write:%r" % w.get("witness"), "every answer of the grammar can be written (reference <= L = %s)" % lang, "the writer cannot produce %r (its output language is %s) %s" % (w.get("witness"), lang, w.get("error", "")), b.loc())
+            w = _wit([L], [loose])
+            if not r.check(w.get("witness") is None and "error" not in w, anchor, "writes-outside-grammar:%r" % w.get("witness"), "nothing outside the token structure of the answer grammar can be written (L <= %s)" % ref[2], "the writer can produce %r, which is outside the answer grammar (its output language is %s) %s" % (w.get("witness"), lang, w.get("error", "")), b.loc()):
+                continue
+            w = _wit([L], [hi])
+            if w.get("witness") is None and "error" not in w:
+                r.ok(anchor, "nothing outside the answer grammar can be written (L <= %s)" % ref[1], b.loc())
+            elif imprecise:
+                r.ok(anchor, "the extracted language exceeds the grammar by %r, but the extraction met branches it cannot evaluate (%s): separator placement NOT decided" % (w.get("witness"), imprecise[:2]), b.loc())
+            else:
+                r.violation(anchor, "writes-outside-grammar:%r" % w.get("witness"), "the writer can produce %r, which is outside the answer grammar (its output language is %s)" % (w.get("witness"), lang), b.loc())
+            fss = []
+            for x in prog.reachable_from([b]).values():
+                if x.path.startswith("io::") or "<io::" in x.path.split(" as ")[0]:
+                    for fs in format_sites(x):
+                        cs = [c for c in consumers(x, fs.result_local) if c.kind == "call"]
+                        if any(callee_matches(c.info[0], r"^std::io::Write::write_fmt$") for c in cs):
+                            fss.append(fs)
+            if m["name"] == "write_acceptance_status":
                 words = {}
-                if ok and fss[0].args and fss[0].args[0]:
+                tfs = [fs for fs in fss if fs.template == "{}\n" and fs.args and fs.args[0]]
+                if len(tfs) == 1:
                     # the displayed value is a constant chosen by the bool parameter
-                    fb = fss[0].body
-                    seen, _, consts = data_deps(fb, fss[0].args[0][1], through_calls=False)
+                    fb = tfs[0].body
+                    seen, _, consts = data_deps(fb, tfs[0].args[0][1], through_calls=False)
                     for s in fb.sites():
                         n = s.node
                         if s.si is not None and n["k"] == "assign" and n["dst"]["l"] in seen and n["rv"]["k"] == "use":
@@ -146,32 +186,11 @@ def rule_answer_grammar(ctx):
                                             if o.kind == "param":
                                                 truth = c.is_true()
                                 words[k["str"]] = truth
-                r.check(ok and words == {"YES": True, "NO": False}, anchor, "status-words=%s" % sorted(words.items(), key=str), "writes `YES` for true and `NO` for false, then a newline", "write_acceptance_status writes %s with %s" % (ts, words), b.loc())
-            elif m["name"] == "write_single_extension":
-                if "usize" == label_ty.strip():
-                    want = ["w", " {}", "\n"]
+                    r.check(words == {"YES": True, "NO": False}, anchor, "status-words=%s" % sorted(words.items(), key=str), "writes `YES` for true and `NO` for false", "write_acceptance_status chooses its word by %s" % words, b.loc())
                 else:
-                    want = ["[", "{}", ",{}", "]\n"]
-                r.check(sorted(ts) == sorted(want), anchor, "templates=%s" % sorted(ts), "extension line is built from %s" % want, "write_single_extension writes %s instead of %s" % (sorted(ts), sorted(want)), b.loc())
-                # order: opening first, closing last, member templates inside the per-member closure
-                by_t = {fs.template: fs for fs in fss}
-                if sorted(ts) == sorted(want):
-                    first, last = by_t[want[0]], by_t[want[-1]]
-                    in_fn = first.body is b and last.body is b
-                    ordered = in_fn and b.dominates(first.site, last.site)
-                    members = [by_t[t] for t in want[1:-1]]
-                    in_closure = all(fs.body.kind == "closure" for fs in members)
-                    r.check(ordered and in_closure, anchor, "order", "opening token first, one member template per element, closing token last", "the tokens of the extension line are not written in order", b.loc())
-                    if len(members) == 2:
-                        # `{}` for the first member, `,{}` for the others
-                        mb = members[0].body
-                        c0 = [c for c in conditions(mb, members[0].site.bb) if not c.is_discr]
-                        c1 = [c for c in conditions(mb, members[1].site.bb) if not c.is_discr]
-                        r.check(any(c.is_true() for c in c0) and any(c.is_false() for c in c1), anchor, "separator", "no separator before the first member, `,` before the others", "separator logic changed", mb.loc())
-            else:
-                continue
-            r.check(not other or all(w == "flush" for _, w in other), anchor, "other-writes:%s" % sorted({w for _, w in other}), "no other write on the writer", "other operations on the writer: %s" % sorted({w for _, w in other}), b.loc())
+                    r.ok(anchor + "|words", "status word not chosen through a single `{}` template: word/status pairing NOT decided", b.loc())
             r.check(_flush_last(prog, b), anchor, "no-flush", "the function flushes before returning Ok", "the function can return Ok without flushing the writer", b.loc())
+    r.floor(n_dec, 4, "writer methods whose output language was extracted")
 
 
 def rule_status_before_witness(ctx):
